@@ -600,6 +600,7 @@ static void* worker(void* arg) {
   uint64_t s = gseed * 7919ull + (uint64_t)tid;
   pthread_barrier_wait(&g_start);
   traced_op(OP_FRESH);
+  traced_op(35 + NOPS * (int)(tid % NVAR));      // right after: every thread asks the library's allocation functions for large objects
   for (int it = 0; it < g_iters; ++it) {
     int op = (int)(splitmix(&s) % NOPV);
     if (g_class0_only) while (op_class[op % NOPS]) op = (int)(splitmix(&s) % NOPV);   // module-level and table operations only
@@ -626,7 +627,7 @@ int main(int argc, char** argv) {
   gseed = strtoull(argv[4], 0, 10);
   // the event hook takes one sequentially consistent fetch-add per event: under ThreadSanitizer that orders the operations of different
   // threads and hides races between calls that do not overlap in time; the sanitizer run is therefore made without events
-  if (!getenv("CONC_NOEVENTS")) spqlios_verif_events_enable((uint64_t)(nthreads + 2) * (uint64_t)(g_iters + NOPV + 4) * 24);
+  if (!getenv("CONC_NOEVENTS")) spqlios_verif_events_enable((uint64_t)(nthreads + 2) * (uint64_t)(g_iters + NOPV + 6) * 24);
   spqlios_verif_set_tid(0);
   if (getenv("CONC_CPU_MASK")) {
     g_cpu_mask = (uint32_t)strtoul(getenv("CONC_CPU_MASK"), 0, 0);
